@@ -4,6 +4,7 @@ using namespace c19;
 #define CFG_GROUP(name, ...) VH_GROUP(name) { run_cfg<Cfg<__VA_ARGS__>>(ctx); }
 CFG_GROUP(rgb8,     uint8_t, 3, gil::histogram<int, int, int>)
 CFG_GROUP(rgb8s,    int8_t, 3, gil::histogram<int, int, int>)
+CFG_GROUP(rgb8_210, uint8_t, 3, gil::histogram<int, int, int>, 2, 1, 0)   // full-length, permuted channel selection
 CFG_GROUP(rgb16,    uint16_t, 3, gil::histogram<int, int, int>)
 CFG_GROUP(rgba8_310, uint8_t, 4, gil::histogram<int, int, int>, 3, 1, 0)
 CFG_GROUP(rgba8,    uint8_t, 4, gil::histogram<int, int, int, int>)
